@@ -358,6 +358,71 @@ def body_trr(rec, c):
 PARTS = {"lammps": (lammps_cases, body_text), "xyz": (xyz_cases, body_text), "trr": (trr_cases, body_trr)}
 
 
+# ------------------------------------------------------------------ coverage-guided part (atheris / libFuzzer)
+def run_fuzz(ctx, runs):
+    """Spawn vlib/fuzz_c13.py: byte strings -> (trajectory, write schedule) with the same oracle inside the target."""
+    import json
+    import subprocess
+    import sys
+
+    try:
+        import atheris  # noqa: F401
+    except Exception as exc:  # noqa: BLE001
+        ctx.note("fuzz", [f"atheris not importable ({type(exc).__name__}); coverage-guided part skipped"])
+        return
+    work = isolate.mkscratch("fz_")
+    try:
+        target = os.path.join(os.path.dirname(os.path.dirname(os.path.abspath(__file__))), "vlib", "fuzz_c13.py")
+        cmd = [sys.executable, target, work, f"-runs={runs}", f"-seed={ctx.seed % 2**31 or 1}", "-max_len=192", "-len_control=0", f"-artifact_prefix={work}/crash-", "-timeout=120"]
+        try:
+            r = subprocess.run(cmd, capture_output=True, text=True, timeout=3600)
+        except subprocess.TimeoutExpired:
+            ctx.note("fuzz", ["time budget hit: inconclusive"])
+            return
+        stats = {}
+        if os.path.exists(os.path.join(work, "stats.json")):
+            stats = json.load(open(os.path.join(work, "stats.json")))
+        cov = [ln for ln in r.stderr.splitlines() if " cov: " in ln]
+        ctx.case(key="fuzz-campaign", nontrivial=False, classes=["fuzz:campaigns"], n=max(1, int(stats.get("execs", 0))),
+                 sample={"part": "coverage-guided fuzzing (atheris)", "executions": stats.get("execs"), "with_a_cut_inside_a_frame": stats.get("nontrivial"), "per_format": stats.get("kinds"),
+                         "corpus_files": len(os.listdir(os.path.join(work, "corpus"))), "libfuzzer_last_line": cov[-1].strip()[:160] if cov else None})
+        ctx.cls("fuzz:executions", stats.get("execs", 0))
+        ctx.cls("fuzz:executions-with-a-cut-inside-a-frame", stats.get("nontrivial", 0))
+        for k, v in stats.get("kinds", {}).items():
+            ctx.cls(f"fuzz:{k}", v)
+        ctx.note("fuzz", [f"execs={stats.get('execs')} nontrivial={stats.get('nontrivial')} corpus={len(os.listdir(os.path.join(work, 'corpus')))} last: {cov[-1].strip()[:120] if cov else ''}"])
+        vf = os.path.join(work, "violation.json")
+        if os.path.exists(vf):
+            v = json.load(open(vf))
+            ctx.violation("fuzz:" + v["signature"], v["message"], {"part": "fuzz", "hex": v["hex"]})
+        elif r.returncode != 0:
+            ctx.error(f"fuzz target ended with exit code {r.returncode}: {r.stderr[-600:]}")
+    finally:
+        isolate.rmscratch(work)
+
+
+def replay_fuzz(ctx, data):
+    import subprocess
+    import sys
+
+    work = isolate.mkscratch("fz_")
+    try:
+        target = os.path.join(os.path.dirname(os.path.dirname(os.path.abspath(__file__))), "vlib", "fuzz_c13.py")
+        os.makedirs(os.path.join(work, "corpus"), exist_ok=True)
+        inp = os.path.join(work, "input.bin")
+        with open(inp, "wb") as fh:
+            fh.write(bytes.fromhex(data["hex"]))
+        r = subprocess.run([sys.executable, target, work, inp], capture_output=True, text=True, timeout=600)  # libFuzzer: a file argument = run that input once
+        vf = os.path.join(work, "violation.json")
+        if os.path.exists(vf):
+            import json
+
+            v = json.load(open(vf))
+            ctx.violation("fuzz:" + v["signature"], v["message"], data)
+    finally:
+        isolate.rmscratch(work)
+
+
 def run(ctx):
     ctx.rule = (
         "Generated trajectories: LAMMPS dumps (2-6 atoms, 1-4 frames, shuffled ids, %g/%f/%e numbers, 2- or 3-column box lines), CP2K xyz "
@@ -368,15 +433,22 @@ def run(ctx):
         "GromacsRunner.get_gromacs_frames with a stub process whose poll() and the module's sleep are owned by the harness. Oracle: no "
         "exception; cumulative frames are a prefix of the written frames with exactly the written values, never more than the frames whose "
         "data bytes are on disk; all frames within two polls after the writer finished. Non-trivial: a cut that is not at a frame boundary "
-        "(TRR: additionally a frame delivered while the writer was still running, or a file below the 1000-byte header wait). Distinct = (file, schedule)."
+        "(TRR: additionally a frame delivered while the writer was still running, or a file below the 1000-byte header wait). Distinct = (file, schedule). "
+        "Coverage-guided part: an atheris/libFuzzer campaign (quick 4000, thorough 150000 executions, -seed from VERIF_SEED, empty corpus, coverage of "
+        "infretis' reader modules) whose target decodes the bytes into (format, trajectory, up to 8 cuts with idle polls) and applies the same oracle; "
+        "its executions are counted in `evaluations` and classified under fuzz:*, but not in distinct_nontrivial."
     )
     ctx.assumptions = ["the final file is complete (the writer exits normally); a per-poll lower bound is not demanded (callers tolerate a lagging poll)"]
     run_property(ctx, "lammps", lammps_cases, body_text, ctx.pick(48, 480), shards=ctx.procs)
     run_property(ctx, "xyz", xyz_cases, body_text, ctx.pick(48, 480), shards=ctx.procs)
     run_property(ctx, "trr", trr_cases, body_trr, ctx.pick(64, 640), shards=ctx.procs)
+    if not getattr(ctx, "part", None) or ctx.part == "fuzz":
+        run_fuzz(ctx, ctx.pick(4000, 150000))
 
 
 def replay(ctx, data):
+    if data["part"] == "fuzz":
+        return replay_fuzz(ctx, data)
     strat, body = PARTS[data["part"]]
     try:
         body(ctx, data["case"])
